@@ -15,7 +15,9 @@ TABLE_DEPS = ["arity_dispatch_cmp", "arity_apply_to_shape", "arity_apply_shape",
               "arity_recur_flag", "arity_analyzer_rule"]
 TAGGED = True
 SHARD = 500
-HARD_TIMEOUT = 60
+HARD_TIMEOUT = 120
+# the 10^6-iteration recur cases of the thorough tier need more than the default 10 s on a loaded machine
+WORKER_ENV = {"VERIF_CASE_SOFT_TIMEOUT": "60"}
 RULE = ("thorough tier: the whole bounded domain, quick tier: a seeded sample of about 45 cases per signature "
         "(every argument count directly, 10 finite and 3 infinite apply shapes, partial, recur) of: every signature with fixed arities a subset of 0..4 and an optional variadic arity with "
         "max(fixed) <= m <= 4 (93 signatures; each fn is compiled from generated Lisp once per worker and "
